@@ -77,7 +77,7 @@ pub fn depth0_boundaries(s: &[u8]) -> (Vec<usize>, Vec<usize>) {
 
 pub fn gen(tier: &str, rng: &mut Rng, out: &mut Vec<String>) {
     let thorough = tier == "thorough";
-    let n = if thorough { 60_000 } else { 2_000 };
+    let n = if thorough { 12_000 } else { 2_000 };
     for k in 0..n {
         let g = { let len = 2 + k % 12; gen_script(rng, len) };
         let s = &g.script; let flags = if rng.chance(1, 3) { 1 } else { 0 };
@@ -86,7 +86,7 @@ pub fn gen(tier: &str, rng: &mut Rng, out: &mut Vec<String>) {
         // all ways of splitting into two segments, and (sampled in quick) three segments, at depth-zero boundaries
         for (ia, a) in b0.iter().enumerate() {
             out.push(format!("c17.split {} {} {} {}", hexd(s), flags, a, g.oracle));
-            for b in b0.iter().skip(ia) { if thorough || rng.chance(1, 4) { out.push(format!("c17.split {} {} {},{} {}", hexd(s), flags, a, b, g.oracle)); } }
+            for b in b0.iter().skip(ia) { if rng.chance(1, if thorough { 2 } else { 4 }) { out.push(format!("c17.split {} {} {},{} {}", hexd(s), flags, a, b, g.oracle)); } }
         }
         // break offsets inside push data (depth zero) and beyond the end
         for p in inside.iter().take(6) { out.push(format!("c17.split {} {} {} {}", hexd(s), flags, p, g.oracle)); out.push(format!("c17.break {} {} {} {}", hexd(s), flags, p, g.oracle)); }
